@@ -43,7 +43,7 @@ def build_world():
     from nutils.sample import Sample
     from nutils.pointsseq import PointsSequence
     w = World()
-    tX, gX = mesh.line(4, space='X')
+    tX, gX = mesh.line(6, space='X')
     tY, gY = mesh.line(3, space='Y')
     tZ, gZ = mesh.rectilinear([1, 2], space='Z')
     w.topo = dict(X=tX, Y=tY, Z=tZ)
@@ -53,6 +53,9 @@ def build_world():
     w.func = {sp: numpy.stack([t.f_index] + [t.f_coords[d] for d in range(w.ndims[sp])]) for sp, t in w.topo.items()}
     w.bases = []      # dict(sp, sample, np, elem=[topology element], coords=[e][k] -> tuple, weights=[e][k])
 
+    def items_recipe(n):
+        return dict(k='items', p=list(range(1, n + 1)), u=[])
+
     def synthetic(sp, els, nps):
         b = len(w.bases) + 1
         nd = w.ndims[sp]
@@ -61,15 +64,43 @@ def build_world():
         topo = w.topo[sp]
         seq = PointsSequence.from_iter([_points(numpy.array(c).reshape(len(c), nd), wt) for c, wt in zip(coords, weights)], nd)
         smp = Sample.new(sp, (topo.transforms[numpy.array(els)],), seq)
-        w.bases.append(dict(sp=sp, sample=smp, elem=list(els), coords=coords, weights=weights, how='synthetic'))
+        w.bases.append(dict(sp=sp, sample=smp, elem=list(els), items=list(zip(coords, weights)), recipe=items_recipe(len(nps)), how='synthetic'))
+        return b
+
+    def container(sp, els, itemdims, itemnps, recipe):
+        """a synthetic base whose PointsSequence is built by the container operations of pointsseq.py from primitive point sets"""
+        b = len(w.bases) + 1
+        items = []
+        for i, (nd, n) in enumerate(zip(itemdims, itemnps)):
+            coords = [tuple(float(20 * b + 5 * i + k + 1 + 3 * d) for d in range(nd)) for k in range(n)]
+            weights = [float(1 + (b + i + 2 * k) % 4) for k in range(n)]
+            items.append((coords, weights))
+        prim = [_points(numpy.array(c).reshape(len(c), nd), wt) for (c, wt), nd in zip(items, itemdims)]
+
+        def mk(r):
+            if r['k'] == 'items':
+                return PointsSequence.from_iter([prim[i - 1] for i in r['p']], itemdims[r['p'][0] - 1])
+            us = [mk(u) for u in r['u']]
+            if r['k'] == 'take':
+                return us[0].take(numpy.array(r['p'], dtype=int))
+            if r['k'] == 'repeat':
+                return us[0].repeat(r['p'][0])
+            if r['k'] == 'chain':
+                return us[0].chain(us[1])
+            if r['k'] == 'product':
+                return us[0].product(us[1])
+            raise ValueError(r['k'])
+        seq = mk(recipe)
+        topo = w.topo[sp]
+        smp = Sample.new(sp, (topo.transforms[numpy.array(els)],), seq)
+        w.bases.append(dict(sp=sp, sample=smp, elem=list(els), items=items, recipe=recipe, how='container:' + type(seq).__name__))
         return b
 
     def real(sp, smp):
         topo = w.topo[sp]
         elem = [int(topo.transforms.index(t)) for t in smp.transforms[0]]
-        coords = [[tuple(float(x) for x in c) for c in smp.points.get(e).coords] for e in range(smp.nelems)]
-        weights = [[float(x) for x in smp.points.get(e).weights] for e in range(smp.nelems)]
-        w.bases.append(dict(sp=sp, sample=smp, elem=elem, coords=coords, weights=weights, how='real'))
+        items = [([tuple(float(x) for x in c) for c in smp.points.get(e).coords], [float(x) for x in smp.points.get(e).weights]) for e in range(smp.nelems)]
+        w.bases.append(dict(sp=sp, sample=smp, elem=elem, items=items, recipe=items_recipe(smp.nelems), how='real:' + type(smp.points).__name__))
         return len(w.bases)
 
     def located(sp, xs, wts):
@@ -79,7 +110,8 @@ def build_world():
         xarr = numpy.array(xs, dtype=float)
         smp = topo.locate(geom, xarr if geom.ndim == 0 else xarr.reshape(len(xs), 1), eps=1e-10, weights=numpy.array(wts, dtype=float))
         ielems = [int(numpy.floor(x)) for x in xs]
-        w.bases.append(dict(sp=sp, sample=smp, ielems=ielems, given=[((x - numpy.floor(x)),) for x in xs], givenw=list(map(float, wts)), how='located'))
+        w.bases.append(dict(sp=sp, sample=smp, ielems=ielems, given=[((x - numpy.floor(x)),) for x in xs], givenw=list(map(float, wts)),
+                            recipe=items_recipe(len(set(ielems))), how='located'))
         return len(w.bases)
 
     w.atoms = []
@@ -102,6 +134,10 @@ def build_world():
     atom('W', 'plain', synthetic('Y', [0, 1], [3, 2]))
     atom('AC', 'sum', p=[1, 2])
     atom('BG', 'sum', p=[3, 4])
+    I = lambda *p: dict(k='items', p=list(p), u=[])
+    atom('P', 'plain', container('X', [0, 1, 2, 3, 4, 5], [1, 1, 1, 1], [2, 1, 2, 3],
+                                 dict(k='chain', p=[], u=[dict(k='repeat', p=[2], u=[I(1, 2)]), dict(k='take', p=[2, 0], u=[I(2, 3, 4)])])))
+    atom('Q', 'plain', container('Z', [0, 1], [1, 1, 1], [2, 1, 2], dict(k='product', p=[], u=[I(1, 2), I(3)])))
     atom('Ac', 'custom', 1, p=[2, 0, 1])
     atom('Bc', 'custom', 3, p=[1, 2, 0])
     atom('EX', 'empty', s=['X'])
@@ -130,21 +166,37 @@ def table(w, start, operands):
     bases = []
     for b in w.bases:
         smp = b['sample']
-        bases.append(dict(sp=b['sp'], np=[int(smp.points.get(e).npoints) for e in range(smp.nelems)]))
+        np_ = [int(smp.points.get(e).npoints) for e in range(smp.nelems)]
+        items = [len(c) for c, wt in b['items']] if 'items' in b else np_
+        bases.append(dict(sp=b['sp'], np=np_, items=items, ps=b['recipe']))
     return dict(bases=bases, atoms=w.atoms, start=list(start), operands=list(operands))
 
 
-def set_slices(w, atomtable):
-    """the model's numbering of the located leaves' points: reference (b, j, t) is the given point number slices[j][t]"""
+def set_tables(w, atomtable, basetable):
+    """the model's naming of the base points: basetable[b][e][k] = the primitive points <<item, k>> base point (b, e, k) is made
+    of (container model); for located leaves reference (b, j, t) is the given point number slices[j][t]"""
     for row in atomtable:
         a = next(a for a in w.atoms if a['name'] == row['name'])
         if a['kind'] == 'located':
             b = w.bases[a['b'] - 1]
             uniq = sorted(set(b['ielems']))
             b['elem'] = uniq
-            b['coords'] = [[b['given'][pos] for pos in sl] for sl in row['slices']]
-            b['weights'] = [[b['givenw'][pos] for pos in sl] for sl in row['slices']]
+            b['items'] = [([b['given'][pos] for pos in sl], [b['givenw'][pos] for pos in sl]) for sl in row['slices']]
             assert [b['ielems'][sl[0]] for sl in row['slices']] == uniq
+    for b, tab in zip(w.bases, basetable):
+        coords, weights = [], []
+        for el in tab:
+            cs_, ws_ = [], []
+            for pairs in el:
+                c, wt = (), 1.
+                for item, k in pairs:
+                    c = c + tuple(b['items'][item - 1][0][k])
+                    wt *= b['items'][item - 1][1][k]
+                cs_.append(c)
+                ws_.append(wt)
+            coords.append(cs_)
+            weights.append(ws_)
+        b['coords'], b['weights'] = coords, weights
 
 
 # ---------------------------------------------------------------------------
